@@ -26,7 +26,16 @@ MANIFEST = dict(
          "recursive steps with extern tables and un-named sub-queries, several splits, inline relations on either side of a join, append operands "
          "wrapped in sub-queries, unnamed computed columns and aggregates kept across a split, helper columns of group-take and window rewrites) "
          "and run with the user's relations drawn from table_0..5 and columns from _expr_0..3 (full product per position kind, seed-independent); "
-         "the resolver's global names _literal_<id> of relation literals are swept over _literal_0..299.",
+         "the resolver's global names _literal_<id> of relation literals are swept over _literal_0..299. QUALIFIED names stay distinct: two relations "
+         "that share ALL their column names are joined (16 ways of making them: bare tables, aliases, the same table under two aliases, let-tables, "
+         "aliased let-tables, one let-table twice, let + bare, a let that is itself a join, aliased sub-pipelines ending in select, declared tables "
+         "(plain / aliased / twice), relation literals, let-tables in two modules with different and with the SAME name) and exactly one of the "
+         "same-named columns is addressed by its qualifier in every position (select in both orders / one side / mixed / with aliases that swap "
+         "the names / this.rel.col / rel.*, select !{..} of one side, both sides, k, a whole side, after derive / filter, derive incl. case, "
+         "f-string, s-string, filter, sort, sort + take, across a split, group keys, aggregate arguments, window partitions, row_number, "
+         "group-take, join conditions incl. ==k, this/that, this.rel.col, a third relation joined on one of the two): expected rows from the "
+         "origin tags; for relations with unknown columns `select !{rel.col}` is judged on the EXCLUDE / EXCEPT dialects by reading the stars of "
+         "the emitted projection.",
     note="names inside s-strings are opaque SQL and outside the property (a generated CTE name can capture a table named only inside an "
          "s-string); case folding of bare identifiers by the database is not modelled (prqlc emits bare only lower-case names); the 11 "
          "non-SQLite dialects are judged by sqlparser's parser, not by a database. Fixed in /repo: quote characters inside quoted identifiers "
@@ -37,7 +46,7 @@ MANIFEST = dict(
 DIALECTS = ["ansi", "bigquery", "clickhouse", "duckdb", "generic", "glaredb", "mssql", "mysql", "postgres", "redshift", "sqlite", "snowflake"]
 POOL = ["where", "having", "order", "union", "table", "index", "user", "limit", "Mixed", "UPPER", "my col", "a\"b", "it's", "é", "名前", "x-y", "1st", "$d",
         "table_0", "table_1", "table_2", "table_3", "_expr_0", "_expr_1", "_expr_2", "_expr_3", "q\"\"q", "b\\\"s", "semi;colon", "--c"]
-PLAIN = dict(T="tbl1", U="tbl2", C="c1", D="c2", A="al", L="mylet")
+PLAIN = dict(T="tbl1", U="tbl2", C="c1", D="c2", A="al", L="mylet", B="bl", M="mylet2")
 NROWS = 3
 # the names the two generators of the SQL backend (`table_N` for CTEs / relation aliases / sub-query aliases, `_expr_N` for columns) invent next:
 # a program with k inventions before the critical one needs a user object called <prefix>k, so the pools reach past the largest counter value
@@ -406,6 +415,8 @@ def suite_oracle(ctx, br, progs, con, stats, dialects, label):
             elif any(re.fullmatch(r"_expr_\d+", names[p_]) and re.search(r" AS " + names[p_] + r"\b", sql + " ") is None and names[p_] + "." in sql
                      for p_ in "TU" if p_ in tid_positions(tid)):
                 fid = "dedup-conflates-qualifier-and-alias"
+            elif quoted_duplicate_dropped(want, got, names):
+                fid = "same-named-quoted-column-of-second-relation-dropped"
             elif bad:
                 fid = bad          # the (fixed) quote-character class: only when no open cause explains the failure
             stats["fail"][("sqlite", tid, fid)] += 1
@@ -441,6 +452,28 @@ def suite_oracle(ctx, br, progs, con, stats, dialects, label):
             stats["fail"][(d, tid, fid)] += 1
             ctx.oracle_failure(fid, f"sql.{d}: the SQL does not parse or does not carry the names {missing!r} as identifier tokens",
                                {"prql": src, "dialect": d, "sql": a["sql"], "missing": missing, "err": t.get("tokenize_error") or t.get("parse_error")})
+
+
+def quoted_duplicate_dropped(want, got, names, quote='"'):
+    """class predicate of the finding `same-named-quoted-column-of-second-relation-dropped`: the observed rows are EXACTLY the expected rows
+    without the cells of those columns whose name contains the quote character and equals the name of a column further left in the row
+    (column names are read off the origin tags); anything else - another column missing, a wrong cell, a failing statement - is not this class"""
+    if got is None or not want:
+        return False
+    def reduce(row):
+        seen, out = set(), []
+        for c in row:
+            m = re.fullmatch(r"t:.*?/c:(.*)/r:\d+", c, re.S) if isinstance(c, str) else None
+            l = re.fullmatch(r"lit:[ab]/([CD])/\d+", c) if isinstance(c, str) else None
+            nm = m.group(1) if m else names.get(l.group(1)) if l else None
+            if nm is not None and quote in nm:
+                if nm in seen:
+                    continue
+                seen.add(nm)
+            out.append(c)
+        return out
+    red = [reduce(r) for r in want]
+    return red != [list(r) for r in want] and sorted(map(repr, red)) == sorted(map(repr, got))
 
 
 TEMPL_POS = {}
@@ -537,6 +570,291 @@ def build_capture_programs(rng, n_random, skip, full):
     return det + out
 
 
+# ---------------------------------------------------------------------------------------------------------------
+# QUALIFIED names stay distinct: two relations that share ALL their column names (k and the two tagged columns) are joined and the program
+# addresses exactly one of the same-named columns by its qualifier, in every position a qualified name can stand in.  A template is
+# (relation kind) x (tail): the kind says how the two relations come into being and what their qualifiers are, the tail is the rest of the
+# pipeline together with the join condition it needs.  Expected rows are computed from the joined row pairs (i, j) and the origin tags.
+QUAL_SPECIAL = [n for n in POOL if not re.fullmatch(r"table_\d+|_expr_\d+", n) and n != "$d"]
+QUAL_JOINS = {      # condition text from the two qualifiers, joined pairs (row of the left relation, row of the right relation)
+    "eqk": (lambda a, b: "==k", [(i, i) for i in range(1, NROWS + 1)]),
+    "sum4": (lambda a, b: f"{a}.k + {b}.k == 4", [(i, 4 - i) for i in range(1, NROWS + 1)]),
+    "shift": (lambda a, b: f"{a}.k == {b}.k + 1", [(j + 1, j) for j in range(1, NROWS)]),
+    "shift-rev": (lambda a, b: f"{b}.k == {a}.k + 1", [(i, i + 1) for i in range(1, NROWS)]),
+    "thisthat": (lambda a, b: "this.k == that.k + 1", [(j + 1, j) for j in range(1, NROWS)]),
+    "thisthat-qual": (lambda a, b: f"this.{a}.k == that.{b}.k + 1", [(j + 1, j) for j in range(1, NROWS)]),
+    "le": (lambda a, b: f"{a}.k <= {b}.k", [(i, j) for i in range(1, NROWS + 1) for j in range(i, NROWS + 1)]),
+}
+
+
+def _qcols(n):
+    return f"{{k, {q(n['C'])}, {q(n['D'])}}}"
+
+
+def _qdecl(n, t):
+    return f"let {q(n[t])} <[{{k = int, {q(n['C'])} = text, {q(n['D'])} = text}}]>"
+
+
+def _qlit(n, side):
+    return "[" + ", ".join(f"{{k = {i}, {q(n['C'])} = 'lit:{side}/C/{i}', {q(n['D'])} = 'lit:{side}/D/{i}'}}" for i in range(1, NROWS + 1)) + "]"
+
+
+def qual_kinds():
+    """(kind, letters of the relation names that certainly occur in the SQL, column lists known to the compiler?, prelude, left relation,
+    right relation, left qualifier, right qualifier, position letters of the extern tables behind the two sides / None for literals)"""
+    let1 = lambda n: f"let {q(n['L'])} = (from {q(n['T'])} | select {_qcols(n)})\n"
+    let2 = lambda n: f"let {q(n['M'])} = (from {q(n['U'])} | select {_qcols(n)})\n"
+    decl2 = lambda n: f"module default_db {{ {_qdecl(n, 'T')}\n{_qdecl(n, 'U')} }}\n"
+    decl1 = lambda n: f"module default_db {{ {_qdecl(n, 'T')} }}\n"
+    none = lambda n: ""
+    T, U, A, B, L, M = (lambda n, p=p: q(n[p]) for p in "TUABLM")
+    al = lambda x, y: (lambda n: f"{x(n)} = {y(n)}")
+    return [
+        ("extern", "TU", False, none, T, U, T, U, "TU"),
+        ("alias", "TUAB", False, none, al(A, T), al(B, U), A, B, "TU"),
+        ("twice", "TAB", False, none, al(A, T), al(B, T), A, B, "TT"),
+        ("let", "TULM", True, lambda n: let1(n) + let2(n), L, M, L, M, "TU"),
+        ("let-alias", "TUAB", True, lambda n: let1(n) + let2(n), al(A, L), al(B, M), A, B, "TU"),
+        ("let-twice", "TLAB", True, let1, al(A, L), al(B, L), A, B, "TT"),
+        ("let-extern", "TUL", False, let1, L, U, L, U, "TU"),
+        ("extern-let", "TUM", False, let2, T, M, T, M, "TU"),
+        # the left side is itself the result of a join that picked its columns by qualifier: C comes from U, D from T
+        ("let-of-join", "TULM", True, lambda n: f"let {q(n['L'])} = (from {q(n['T'])} | join {q(n['U'])} (==k) | select {{k = {q(n['T'])}.k, {q(n['C'])} = {q(n['U'])}.{q(n['C'])}, "
+                                                f"{q(n['D'])} = {q(n['T'])}.{q(n['D'])}}})\n" + let2(n), L, M, L, M, ({"C": "U", "D": "T"}, {"C": "U", "D": "U"})),
+        ("sub", "TU", True, none, lambda n: f"{q(n['A'])} = (from {q(n['T'])} | select {_qcols(n)})", lambda n: f"{q(n['B'])} = (from {q(n['U'])} | select {_qcols(n)})", A, B, "TU"),
+        ("declared", "TU", True, decl2, T, U, T, U, "TU"),
+        ("declared-alias", "TUAB", True, decl2, al(A, T), al(B, U), A, B, "TU"),
+        ("declared-twice", "TAB", True, decl1, al(A, T), al(B, T), A, B, "TT"),
+        ("literal", "", True, none, lambda n: f"{q(n['A'])} = {_qlit(n, 'a')}", lambda n: f"{q(n['B'])} = {_qlit(n, 'b')}", A, B, None),
+        ("module", "TULM", True, lambda n: f"module qm1 {{ {let1(n).strip()} }}\nmodule qm2 {{ {let2(n).strip()} }}\n", lambda n: "qm1." + q(n['L']), lambda n: "qm2." + q(n['M']), L, M, "TU"),
+        ("module-same", "TUAB", True, lambda n: f"module qm1 {{ {let1(n).strip()} }}\nmodule qm2 {{ {let2(n).strip().replace(q(n['M']), q(n['L']), 1)} }}\n",
+         lambda n: f"{q(n['A'])} = qm1.{q(n['L'])}", lambda n: f"{q(n['B'])} = qm2.{q(n['L'])}", A, B, "TU"),
+    ]
+
+
+def qual_tails():
+    """(tail, join, needs known column lists?, letters of the columns that certainly occur in the SQL, text(a, b, C, D), expected rows from the
+    joined pairs P and the cell functions va / vb / v3 (column letter 'k' | 'C' | 'D', row), ordered?)"""
+    def rows(f):
+        return lambda P, va, vb, v3: [f(i, j, va, vb) for i, j in P]
+    grp = lambda P, key: sorted({key(i, j) for i, j in P})
+    return [
+        # select / derive
+        ("sel-ab", "sum4", False, "C", lambda a, b, C, D: f"select {{{a}.{C}, {b}.{C}}}", rows(lambda i, j, va, vb: [va('C', i), vb('C', j)]), False),
+        ("sel-ba", "sum4", False, "C", lambda a, b, C, D: f"select {{{b}.{C}, {a}.{C}}}", rows(lambda i, j, va, vb: [vb('C', j), va('C', i)]), False),
+        ("sel-a", "sum4", False, "C", lambda a, b, C, D: f"select {{{a}.{C}}}", rows(lambda i, j, va, vb: [va('C', i)]), False),
+        ("sel-b", "sum4", False, "C", lambda a, b, C, D: f"select {{{b}.{C}}}", rows(lambda i, j, va, vb: [vb('C', j)]), False),
+        ("sel-mixed", "sum4", False, "CD", lambda a, b, C, D: f"select {{{a}.{C}, {b}.{D}, {b}.{C}, {a}.{D}}}",
+         rows(lambda i, j, va, vb: [va('C', i), vb('D', j), vb('C', j), va('D', i)]), False),
+        ("sel-k", "sum4", False, "", lambda a, b, C, D: f"select {{{b}.k, {a}.k, {b}.{C}}}", rows(lambda i, j, va, vb: [j, i, vb('C', j)]), False),
+        ("sel-this", "sum4", False, "C", lambda a, b, C, D: f"select {{this.{a}.{C}, this.{b}.{C}}}", rows(lambda i, j, va, vb: [va('C', i), vb('C', j)]), False),
+        ("sel-alias-cross", "sum4", False, "CD", lambda a, b, C, D: f"select {{{C} = {b}.{C}, {D} = {a}.{C}}}", rows(lambda i, j, va, vb: [vb('C', j), va('C', i)]), False),
+        ("sel-alias-one", "sum4", False, "CD", lambda a, b, C, D: f"select {{{C} = {b}.{D}}}", rows(lambda i, j, va, vb: [vb('D', j)]), False),
+        ("sel-eqk", "eqk", False, "C", lambda a, b, C, D: f"select {{{b}.{C}, {a}.{C}}}", rows(lambda i, j, va, vb: [vb('C', j), va('C', i)]), False),
+        ("derive", "sum4", False, "C", lambda a, b, C, D: f"derive {{dx = {b}.{C}}} | select {{dx, {a}.{C}}}", rows(lambda i, j, va, vb: [vb('C', j), va('C', i)]), False),
+        ("derive-two", "sum4", False, "D", lambda a, b, C, D: f"derive {{dx = {a}.{D}, dy = {b}.{D}}} | select {{dy, dx}}", rows(lambda i, j, va, vb: [vb('D', j), va('D', i)]), False),
+        ("derive-expr", "sum4", False, "", lambda a, b, C, D: f"derive {{dx = {b}.k * 10 + {a}.k}} | select {{dx}}", rows(lambda i, j, va, vb: [j * 10 + i]), False),
+        ("derive-case", "sum4", False, "C", lambda a, b, C, D: f"derive {{dx = case [{b}.k > 1 => {b}.{C}, true => {a}.{C}]}} | select {{dx}}",
+         rows(lambda i, j, va, vb: [vb('C', j) if j > 1 else va('C', i)]), False),
+        ("derive-fstr", "sum4", False, "CD", lambda a, b, C, D: f"derive {{dx = f\"{{{a}.{C}}}-{{{b}.{D}}}\"}} | select {{dx}}", rows(lambda i, j, va, vb: [va('C', i) + "-" + vb('D', j)]), False),
+        ("derive-sstr", "sum4", False, "C", lambda a, b, C, D: f"derive {{dx = s\"{{{b}.{C}}}\"}} | select {{dx, {a}.{C}}}", rows(lambda i, j, va, vb: [vb('C', j), va('C', i)]), False),
+        ("sel-expr", "sum4", False, "C", lambda a, b, C, D: f"select {{x = {b}.{C} ?? {a}.{C}, y = {b}.k - {a}.k}}", rows(lambda i, j, va, vb: [vb('C', j), j - i]), False),
+        ("sel-star-a", "sum4", True, "CD", lambda a, b, C, D: f"select {{{a}.*}}", rows(lambda i, j, va, vb: [i, va('C', i), va('D', i)]), False),
+        ("sel-star-b", "sum4", True, "CD", lambda a, b, C, D: f"select {{{b}.*, {a}.{C}}}", rows(lambda i, j, va, vb: [j, vb('C', j), vb('D', j), va('C', i)]), False),
+        # select !{..}: needs column lists known to the compiler (SQLite has no EXCLUDE)
+        ("excl-a", "sum4", True, "CD", lambda a, b, C, D: f"select !{{{a}.{C}}}", rows(lambda i, j, va, vb: [i, va('D', i), j, vb('C', j), vb('D', j)]), False),
+        ("excl-b", "sum4", True, "CD", lambda a, b, C, D: f"select !{{{b}.{C}}}", rows(lambda i, j, va, vb: [i, va('C', i), va('D', i), j, vb('D', j)]), False),
+        ("excl-a-eqk", "eqk", True, "CD", lambda a, b, C, D: f"select !{{{a}.{C}}}", rows(lambda i, j, va, vb: [i, va('D', i), j, vb('C', j), vb('D', j)]), False),
+        ("excl-b-eqk", "eqk", True, "CD", lambda a, b, C, D: f"select !{{{b}.{D}}}", rows(lambda i, j, va, vb: [i, va('C', i), va('D', i), j, vb('C', j)]), False),
+        ("excl-ab", "sum4", True, "CD", lambda a, b, C, D: f"select !{{{a}.{C}, {b}.{D}}}", rows(lambda i, j, va, vb: [i, va('D', i), j, vb('C', j)]), False),
+        ("excl-k", "sum4", True, "CD", lambda a, b, C, D: f"select !{{{b}.k}}", rows(lambda i, j, va, vb: [i, va('C', i), va('D', i), vb('C', j), vb('D', j)]), False),
+        ("excl-all-a", "sum4", True, "CD", lambda a, b, C, D: f"select !{{{a}.k, {a}.{C}, {a}.{D}}}", rows(lambda i, j, va, vb: [j, vb('C', j), vb('D', j)]), False),
+        ("excl-derive", "sum4", True, "CD", lambda a, b, C, D: f"derive {{dx = {b}.k + 10}} | select !{{{b}.k, {a}.{C}}}",
+         rows(lambda i, j, va, vb: [i, va('D', i), vb('C', j), vb('D', j), j + 10]), False),
+        ("excl-then-sel", "sum4", True, "CD", lambda a, b, C, D: f"select !{{{a}.{C}}} | select {{{b}.{C}, {a}.{D}}}", rows(lambda i, j, va, vb: [vb('C', j), va('D', i)]), False),
+        ("excl-filter", "sum4", True, "CD", lambda a, b, C, D: f"filter {b}.k > 1 | select !{{{b}.{C}, {a}.k}}",
+         lambda P, va, vb, v3: [[va('C', i), va('D', i), j, vb('D', j)] for i, j in P if j > 1], False),
+        # filter / sort / take
+        ("filter-a", "sum4", False, "C", lambda a, b, C, D: f"filter {a}.k > 1 | select {{{a}.{C}, {b}.{C}}}", lambda P, va, vb, v3: [[va('C', i), vb('C', j)] for i, j in P if i > 1], False),
+        ("filter-b", "sum4", False, "C", lambda a, b, C, D: f"filter {b}.k > 1 | select {{{a}.{C}, {b}.{C}}}", lambda P, va, vb, v3: [[va('C', i), vb('C', j)] for i, j in P if j > 1], False),
+        ("filter-both", "sum4", False, "C", lambda a, b, C, D: f"filter {a}.k == 1 && {b}.k == 3 | select {{{a}.{C}, {b}.{C}}}", lambda P, va, vb, v3: [[va('C', 1), vb('C', 3)]], False),
+        ("sort-a", "sum4", False, "C", lambda a, b, C, D: f"sort {{{a}.k}} | select {{{b}.{C}}}", lambda P, va, vb, v3: [[vb('C', j)] for i, j in sorted(P)], True),
+        ("sort-b", "sum4", False, "C", lambda a, b, C, D: f"sort {{{b}.k}} | select {{{b}.{C}, {a}.k}}", lambda P, va, vb, v3: [[vb('C', j), i] for i, j in sorted(P, key=lambda p: p[1])], True),
+        ("sort-b-desc", "sum4", False, "C", lambda a, b, C, D: f"sort {{-{b}.k}} | select {{{a}.{C}}}", lambda P, va, vb, v3: [[va('C', i)] for i, j in sorted(P, key=lambda p: -p[1])], True),
+        ("sort-tag", "sum4", False, "C", lambda a, b, C, D: f"sort {{-{b}.{C}}} | select {{{a}.k}}", lambda P, va, vb, v3: [[i] for i, j in sorted(P, key=lambda p: -p[1])], True),
+        ("sort-take-a", "sum4", False, "C", lambda a, b, C, D: f"sort {{-{a}.k}} | take 1 | select {{{a}.{C}, {b}.{C}}}", lambda P, va, vb, v3: [[va('C', i), vb('C', j)] for i, j in P if i == NROWS], False),
+        ("sort-take-b", "sum4", False, "C", lambda a, b, C, D: f"sort {{-{b}.k}} | take 1 | select {{{a}.{C}, {b}.{C}}}", lambda P, va, vb, v3: [[va('C', i), vb('C', j)] for i, j in P if j == NROWS], False),
+        ("split-sort", "sum4", False, "C", lambda a, b, C, D: f"sort {{{a}.k}} | take 5 | select {{{b}.{C}, {a}.{C}}}", lambda P, va, vb, v3: [[vb('C', j), va('C', i)] for i, j in sorted(P)], True),
+        ("split-filter", "sum4", False, "C", lambda a, b, C, D: f"take 5 | filter {b}.k > 1 | select {{{a}.{C}, {b}.{C}}}", lambda P, va, vb, v3: [[va('C', i), vb('C', j)] for i, j in P if j > 1], False),
+        # group keys, aggregate arguments, window partitions, group-take
+        ("group-a", "le", False, "", lambda a, b, C, D: f"group {{{a}.k}} (aggregate {{n = count this}})", lambda P, va, vb, v3: [[x, sum(1 for i, j in P if i == x)] for x in grp(P, lambda i, j: i)], False),
+        ("group-b", "le", False, "", lambda a, b, C, D: f"group {{{b}.k}} (aggregate {{n = count this, m = min {a}.k}})", lambda P, va, vb, v3: [[x, sum(1 for i, j in P if j == x), 1] for x in grp(P, lambda i, j: j)], False),
+        ("group-tag-a", "le", False, "C", lambda a, b, C, D: f"group {{{a}.{C}}} (aggregate {{m = sum {b}.k}})", lambda P, va, vb, v3: [[va('C', x), sum(j for i, j in P if i == x)] for x in grp(P, lambda i, j: i)], False),
+        ("group-tag-b", "le", False, "C", lambda a, b, C, D: f"group {{{b}.{C}}} (aggregate {{m = sum {a}.k}})", lambda P, va, vb, v3: [[vb('C', x), sum(i for i, j in P if j == x)] for x in grp(P, lambda i, j: j)], False),
+        ("agg-arg-b", "le", False, "C", lambda a, b, C, D: f"group {{{a}.k}} (aggregate {{m = sum {b}.k, s = max {b}.{C}}})",
+         lambda P, va, vb, v3: [[x, sum(j for i, j in P if i == x), vb('C', NROWS)] for x in grp(P, lambda i, j: i)], False),
+        ("agg-arg-a", "le", False, "C", lambda a, b, C, D: f"group {{{b}.k}} (aggregate {{m = sum {a}.k, s = max {a}.{C}}})",
+         lambda P, va, vb, v3: [[x, sum(i for i, j in P if j == x), va('C', x)] for x in grp(P, lambda i, j: j)], False),
+        ("agg-global", "le", False, "C", lambda a, b, C, D: f"aggregate {{x = sum {a}.k, y = sum {b}.k, s = min {b}.{C}, t = max {a}.{C}}}",
+         lambda P, va, vb, v3: [[sum(i for i, j in P), sum(j for i, j in P), vb('C', 1), va('C', NROWS)]], False),
+        ("window-part-a", "le", False, "", lambda a, b, C, D: f"group {{{a}.k}} (derive {{s = sum {b}.k}}) | select {{{a}.k, {b}.k, s}}",
+         lambda P, va, vb, v3: [[i, j, sum(y for x, y in P if x == i)] for i, j in P], False),
+        ("window-part-b", "le", False, "", lambda a, b, C, D: f"group {{{b}.k}} (derive {{s = sum {a}.k}}) | select {{{a}.k, {b}.k, s}}",
+         lambda P, va, vb, v3: [[i, j, sum(x for x, y in P if y == j)] for i, j in P], False),
+        ("window-rn", "le", False, "", lambda a, b, C, D: f"group {{{b}.k}} (sort {{-{a}.k}} | derive {{rn = row_number this}}) | select {{{a}.k, {b}.k, rn}}",
+         lambda P, va, vb, v3: [[i, j, sum(1 for x, y in P if y == j and x >= i)] for i, j in P], False),
+        ("group-take-a", "le", False, "C", lambda a, b, C, D: f"group {{{a}.k}} (sort {{-{b}.k}} | take 1) | select {{{a}.k, {b}.k, {b}.{C}}}",
+         lambda P, va, vb, v3: [[x, NROWS, vb('C', NROWS)] for x in grp(P, lambda i, j: i)], False),
+        ("group-take-b", "le", False, "C", lambda a, b, C, D: f"group {{{b}.k}} (sort {{{a}.k}} | take 1) | select {{{a}.{C}, {b}.k}}",
+         lambda P, va, vb, v3: [[va('C', 1), x] for x in grp(P, lambda i, j: j)], False),
+        # join conditions
+        ("on-shift", "shift", False, "C", lambda a, b, C, D: f"select {{{a}.{C}, {b}.{C}}}", rows(lambda i, j, va, vb: [va('C', i), vb('C', j)]), False),
+        ("on-shift-rev", "shift-rev", False, "C", lambda a, b, C, D: f"select {{{a}.{C}, {b}.{C}}}", rows(lambda i, j, va, vb: [va('C', i), vb('C', j)]), False),
+        ("on-thisthat", "thisthat", False, "C", lambda a, b, C, D: f"select {{{a}.{C}, {b}.{C}}}", rows(lambda i, j, va, vb: [va('C', i), vb('C', j)]), False),
+        ("on-thisthat-qual", "thisthat-qual", False, "C", lambda a, b, C, D: f"select {{{a}.{C}, {b}.{C}}}", rows(lambda i, j, va, vb: [va('C', i), vb('C', j)]), False),
+        ("on-le", "le", False, "", lambda a, b, C, D: f"select {{{a}.k, {b}.k}}", rows(lambda i, j, va, vb: [i, j]), False),
+        # a third relation with the same column names, bound to the right one of the first two
+        ("third-on-b", "sum4", False, "C", lambda a, b, C, D: f"join q3 = `\x00T` (q3.k == {b}.k + 1) | select {{q3.{C}, {b}.{C}, {a}.{C}}}",
+         lambda P, va, vb, v3: [[v3('C', j + 1), vb('C', j), va('C', i)] for i, j in P if j < NROWS], False),
+        ("third-on-a", "sum4", False, "C", lambda a, b, C, D: f"join q3 = `\x00T` ({a}.k + 1 == q3.k) | select {{q3.{C}, {b}.{C}, {a}.{C}}}",
+         lambda P, va, vb, v3: [[v3('C', i + 1), vb('C', j), va('C', i)] for i, j in P if i < NROWS], False),
+    ]
+
+
+def qual_templates():
+    out = []
+    for kind, rels, known, pre, left, right, QA, QB, tabs in qual_kinds():
+        for tail, join, need_known, cols, text, ex, ordered in qual_tails():
+            if need_known and not known:
+                continue
+            def mk(n, pre=pre, left=left, right=right, QA=QA, QB=QB, join=join, text=text, tail=tail):
+                a, b = QA(n), QB(n)
+                if tail in ("derive-fstr", "derive-sstr") and re.search(r"[\"'\\{}]", a + b + n['C'] + n['D']):
+                    return None       # the names are written inside a string literal here: no quote characters, backslashes or braces
+                return (f"{pre(n)}from {left(n)} | join {right(n)} ({QUAL_JOINS[join][0](a, b)}) | " + text(a, b, q(n['C']), q(n['D']))).replace("`\x00T`", q(n['T']))
+            def exp(n, tabs=tabs, join=join, ex=ex):
+                def cell(side):
+                    if tabs is None:
+                        return lambda c, i: i if c == 'k' else f"lit:{'ab'[side]}/{c}/{i}"
+                    return lambda c, i: i if c == 'k' else tag(n[tabs[side][c] if isinstance(tabs[side], dict) else tabs[side]], n[c], i)
+                return ex(QUAL_JOINS[join][1], cell(0), cell(1), lambda c, i: i if c == 'k' else tag(n['T'], n[c], i))
+            out.append((f"q:{kind}/{tail}", rels + "".join(c for c in cols if c not in rels), mk, exp, ordered))
+    return out
+
+
+def build_qualified_programs(rng, n_random):
+    """every (kind, tail) with the plain names and once with all eight names drawn from the special-name pool (keywords, mixed case, spaces,
+    quotes, non-ASCII; a fixed draw per template, seed-independent), then seeded random draws"""
+    import random
+    T = qual_templates()
+    for tid, pos, *_ in T:
+        TEMPL_POS[tid] = set(pos)
+    det, out, seen = [], [], set()
+    for tid, pos, mk, ex, ordered in T:
+        for names in (dict(PLAIN), dict(zip("TUCDABLM", random.Random("C09/" + tid).sample(QUAL_SPECIAL, 8)))):
+            src = mk(names)
+            if src is not None and src not in seen:
+                seen.add(src); det.append((tid, names, src, ex(names), ordered))
+    for _ in range(n_random):
+        tid, pos, mk, ex, ordered = rng.choice(T)
+        names = dict(PLAIN)
+        for p, nme in zip("TUCDABLM", rng.sample(QUAL_SPECIAL, 8)):
+            if rng.random() < 0.6:
+                names[p] = nme
+        if len(set(names.values())) < len(names):
+            continue
+        src = mk(names)
+        if src is not None and src not in seen:
+            seen.add(src); out.append((tid, names, src, ex(names), ordered))
+    DET_SRCS.update(p[2] for p in det)
+    return det + out
+
+
+EXCLUDE_DIALECTS = ["duckdb", "snowflake", "bigquery"]      # the dialects whose handler has a column_exclude (EXCLUDE / EXCEPT)
+
+
+def parse_star_projection(tokens):
+    """`SELECT q1.* [EXCLUDE|EXCEPT (c, ..)], q2.* [..] FROM` -> [(qualifier, set of excluded names)] or None if the projection has another shape"""
+    toks = [t for t in tokens if not (isinstance(t, dict) and "Whitespace" in t)]
+    word = lambda t: t["Word"] if isinstance(t, dict) and "Word" in t else None
+    if not toks or not word(toks[0]) or word(toks[0])["keyword"] != "SELECT":
+        return None
+    i, out = 1, []
+    while True:
+        if i + 2 >= len(toks) or not word(toks[i]) or toks[i + 1] != "Period" or toks[i + 2] != "Mul":
+            return None
+        qual, ex = word(toks[i])["value"], set()
+        i += 3
+        if i < len(toks) and word(toks[i]) and word(toks[i])["keyword"] in ("EXCLUDE", "EXCEPT"):
+            if toks[i + 1] != "LParen":
+                return None
+            i += 2
+            while True:
+                if not word(toks[i]):
+                    return None
+                ex.add(word(toks[i])["value"]); i += 1
+                if toks[i] == "Comma":
+                    i += 1
+                elif toks[i] == "RParen":
+                    i += 1; break
+                else:
+                    return None
+        out.append((qual, ex))
+        if i < len(toks) and toks[i] == "Comma":
+            i += 1
+        elif i < len(toks) and word(toks[i]) and word(toks[i])["keyword"] == "FROM":
+            return out
+        else:
+            return None
+
+
+def suite_wildcard_exclusion(ctx, stats, rng, n_random):
+    """`select !{rel.col, ..}` over relations whose columns are NOT known (bare tables, aliases, the same table twice): the exclusion can only be
+    emitted for dialects with `* EXCLUDE / EXCEPT (..)`, so it cannot be executed on SQLite; the oracle reads the projection of the emitted
+    SQL (tokens of that dialect's sqlparser): each of the two stars must carry exactly the columns excluded under ITS qualifier"""
+    import random
+    kinds = {k[0]: k for k in qual_kinds()}
+    shapes = [[("a", "C")], [("b", "C")], [("a", "C"), ("b", "D")], [("b", "k")], [("a", "C"), ("b", "C")], [("a", "k"), ("a", "D"), ("b", "D")], [("b", "C"), ("b", "D"), ("a", "D")]]
+    progs, seen = [], set()
+    def add(kind, join, shape, n):
+        _, _, _, pre, left, right, QA, QB, _ = kinds[kind]
+        la, lb = ("TU" if kind == "extern" else "AB")
+        a, b = QA(n), QB(n)
+        excl = ", ".join(f"{a if s_ == 'a' else b}.{'k' if c == 'k' else q(n[c])}" for s_, c in shape)
+        src = f"{pre(n)}from {left(n)} | join {right(n)} ({QUAL_JOINS[join][0](a, b)}) | select !{{{excl}}}"
+        want = [(n[la], {'k' if c == 'k' else n[c] for s_, c in shape if s_ == 'a'}), (n[lb], {'k' if c == 'k' else n[c] for s_, c in shape if s_ == 'b'})]
+        if src not in seen:
+            seen.add(src); progs.append((f"wild-excl:{kind}", src, want))
+    for kind in ("extern", "alias", "twice"):
+        for join in ("eqk", "shift"):
+            for k, shape in enumerate(shapes):
+                add(kind, join, shape, dict(PLAIN))
+                add(kind, join, shape, dict(zip("TUCDABLM", random.Random(f"C09/wild/{kind}/{join}/{k}").sample(QUAL_SPECIAL, 8))))
+    for _ in range(n_random):
+        n = dict(PLAIN)
+        for p_, nme in zip("TUCDAB", rng.sample(QUAL_SPECIAL, 6)):
+            if rng.random() < 0.6:
+                n[p_] = nme
+        if len(set(n.values())) == len(n):
+            add(rng.choice(["extern", "alias", "twice"]), rng.choice(["eqk", "shift", "sum4", "le"]), rng.choice(shapes), n)
+    reqs = [(p, d) for p in progs for d in EXCLUDE_DIALECTS]
+    comp = vh_batch([compile_req(p[1], d) for p, d in reqs])
+    toks = vh_batch([{"op": "sqlparse", "dialect": d, "sql": a.get("sql", ""), "tokens": True} for (p, d), a in zip(reqs, comp)])
+    for ((sid, src, want), d), a, t in zip(reqs, comp, toks):
+        ctx.case(("wild-excl", d, src), nontrivial="sql" in a)
+        stats["templates"][sid] += 1
+        if "sql" not in a:
+            stats["fail"][(d, sid, "program-rejected")] += 1
+            ctx.oracle_failure("program-rejected", f"sql.{d}: program does not compile: {src!r}", {"prql": src, "dialect": d, "errors": [e.get("reason") for e in a.get("errors", [])]})
+            continue
+        got = parse_star_projection(t.get("tokens", []))
+        if got != want:
+            stats["fail"][(d, sid, None)] += 1
+            ctx.oracle_failure(None, f"{sid} sql.{d}: the columns excluded under a qualifier are not exactly the exclusions of the star of that relation: {got}",
+                               {"prql": src, "dialect": d, "sql": a["sql"], "expected": [[x, sorted(y)] for x, y in want], "observed": [[x, sorted(y)] for x, y in got] if got else None})
+    stats["wildcard_exclusion_programs"] = len(progs)
+
+
 DET_SRCS = set()
 
 
@@ -622,7 +940,10 @@ def run(ctx):
                 "aggregate, hidden sort key): same pool stream (quick: sqlite + one dialect per quoting style; thorough: all 12), and for ALL templates "
                 "the generated-name stream: relation positions x {plain, table_0..5} with plain columns and column positions x {plain, _expr_0..3} "
                 "with plain relations (thorough: the product over all positions at once), pairwise distinct, SQLite only, then seeded random mixes; "
-                "4 relation-literal shapes x user table _literal_0..299")
+                "4 relation-literal shapes x user table _literal_0..299. Qualified names: 16 relation kinds x 59 tails (tails that need known "
+                "column lists only for the 11 kinds that have them), each with the plain names and with one fixed draw of all eight names from the "
+                "special-name pool (seed-independent), then seeded random name mixes, SQLite; 3 kinds with unknown columns x 2 join conditions x 7 "
+                "exclusion sets x {plain, special} names x {duckdb, snowflake, bigquery}, then seeded random mixes")
     ctx.assumptions += ["which object a name binds to is observed on SQLite only (origin-tagged cells); for the other 11 dialects the check is that the "
                         "dialect's sqlparser parses the SQL as one statement and the user names occur verbatim as identifier tokens",
                         "the trusted list of SQLite reserved words is https://sqlite.org/lang_keywords.html (147 words) as written in Props/C09.lean",
@@ -645,6 +966,10 @@ def run(ctx):
     cap = build_capture_programs(ctx.rng, 20000 if thorough else 1500, {p[2] for p in progs}, thorough)
     stats["capture_programs"] = len(cap)
     suite_oracle(ctx, br, cap, con, stats, ["sqlite"], "generated-name patterns")
+    qual = build_qualified_programs(ctx.rng, 4000 if thorough else 150)
+    stats["qualified_programs"] = len(qual)
+    suite_oracle(ctx, br, qual, con, stats, ["sqlite"], "qualified names")
+    suite_wildcard_exclusion(ctx, stats, ctx.rng, 2000 if thorough else 100)
     suite_literal_names(ctx, stats)
     ctx.exhaustive = True
     suite_split_model(ctx, stats)
@@ -652,7 +977,8 @@ def run(ctx):
     ctx.obligation("oracle: every name binds to the object of exactly that name on SQLite and is carried verbatim for every dialect (outside recorded findings)",
                    not unknown, json.dumps({str(k): n for k, n in stats["fail"].items()})[:1500])
     ctx.coverage_extra["distribution"] = {"hook_results": dict(stats["hook"]), "templates": dict(stats["templates"]), "name_kinds_in_programs": dict(stats["name_kinds"]),
-                                          "sqlite_statements_executed": stats["sqlite_exec"], "generated_name_stream_programs": stats.get("capture_programs"), "split_model_cases": dict(stats["split"]),
+                                          "sqlite_statements_executed": stats["sqlite_exec"], "generated_name_stream_programs": stats.get("capture_programs"), "qualified_name_programs": stats.get("qualified_programs"),
+                                          "wildcard_exclusion_programs": stats.get("wildcard_exclusion_programs"), "split_model_cases": dict(stats["split"]),
                                           "property_failures_by_site_and_class": {str(k): n for k, n in sorted(stats["fail"].items(), key=str)}}
     ctx.coverage_extra["timing_s"] = {"oracle": round(time.time() - t0, 1)}
     ctx.sample({"prql": "let a = (from [{k = 1}] | take 1)\nfrom table_0 | join a (==k) | select {table_0.c1}",
